@@ -220,7 +220,7 @@ func (d *pdkg) Grouping(ctx context.Context, sessionID string, groupIds [][]byte
 	cetifiedDkgc, errc := getAndProcessResponses(ctx, d.logger, dkgcStep3, askMembers(ctx, d.logger, d.bufToNode, (len(groupIds)-1)*(len(groupIds)-1), 2, sessionID), sessionID)
 	outc, errc := genGroup(ctx, d.logger, group, d.suite, cetifiedDkgc, sessionID)
 	errcList = append(errcList, errc)
-	errc = mergeErrors(d.logger, sessionID, errcList...)
+	errc = mergeErrors(ctx, d.logger, sessionID, errcList...)
 	return outc, errc, nil
 }
 
@@ -316,17 +316,19 @@ func fanOut(ctx context.Context, ch chan interface{}, size int) (cs []chan inter
 	return
 }
 
-func mergeErrors(logger log.Logger, sessionID string, cs ...chan error) chan error {
+func mergeErrors(ctx context.Context, logger log.Logger, sessionID string, cs ...chan error) chan error {
 	var wg sync.WaitGroup
 
 	out := make(chan error, len(cs))
 	output := func(c <-chan error) {
+		defer wg.Done()
 		for n := range c {
 			select {
+			case <-ctx.Done():
+				return
 			case out <- n:
 			}
 		}
-		wg.Done()
 	}
 	wg.Add(len(cs))
 	for _, c := range cs {
